@@ -35,19 +35,20 @@ def gen_reg_args(rng):
     nonascii = rng.random() < 0.2
     a = {
         "rp_id": rng.choice(["example.com", "login.example.org", "bücher.example" if nonascii else "a.b", "Login.Example.COM", "İstanbul.example" if nonascii else "EXAMPLE.com",
-                             "xn--bcher-kva.example", "XN--BCHER-KVA.Example", "xn--80ak6aa92e.com", "example.com.", "xn--a.example"]),
+                             "xn--bcher-kva.example", "XN--BCHER-KVA.Example", "xn--80ak6aa92e.com", "example.com.", "xn--a.example", "127.0.0.1", "::1", "2001:db8::1", "10.0.0.1", "localhost"]),
         "rp_name": rng.choice(["Example Co", "ACME", "Bücher & Söhne" if nonascii else "Books", " padded name "]),
         "user_name": rng.choice(["lee", "user@example.com", "ユーザー" if nonascii else "u", "Lee@Example.COM", " lee ", "Zoe\u0308" if nonascii else "zoe", "\u212bngstro\u0308m" if nonascii else "angstrom"]),
         "user_id": rng.choice([None, None, b"", rng.randbytes(rng.choice([1, 16, 64]))]),
         "display_name": rng.choice([None, "", "Lee Smith", "李", "Zoe\u0308 \ufb01", "e\u0301"]),
         "challenge": rng.choice([None, None, b"", rng.randbytes(rng.choice([1, 16, 32, 64, 100]))]),
-        "timeout": rng.choice([60000, 0, 1, 12000, 2 ** 31]),
+        "timeout": rng.choice([60000, 0, 1, 12000, 2 ** 31, 2 ** 32 - 1, 2 ** 32, 2 ** 32 + 1, 604800000000, 2 ** 53 + 1, 10 ** 18, 2 ** 64]),
         "attestation": rng.choice(ATTEST),
         "auth_sel": rng.choice([None, None]) if rng.random() < 0.4 else gen_auth_sel(rng),
         "exclude": rng.choice([None, []]) if rng.random() < 0.4 else [gen_descriptor(rng) for _ in range(rng.randrange(1, 4))],
         "algs": rng.choice([None, []]) if rng.random() < 0.4 else (rng.sample(ALGS, rng.randrange(1, 6)) if rng.random() < 0.8 else [rng.choice(ALGS) for _ in range(rng.randrange(2, 6))] + [-7, -7]),
         "hints": rng.choice([None, None, [], [rng.choice(HINTS)], rng.sample(HINTS, 2)]),
     }
+    a["exclude"] = _with_repeats(rng, a["exclude"])
     # names are opaque texts: invisible / format characters at their ends (language and direction trailers of WebAuthn L2 6.4.2 made of TAG characters, direction marks, variation
     # selectors, joiners, byte order marks, white space) are part of them
     if rng.random() < 0.3:
@@ -70,9 +71,27 @@ def gen_reg_args(rng):
     return a
 
 
+def _with_repeats(rng, lst):
+    """a credential list may name the same credential more than once (the same descriptor again, an equal copy of it): it is the caller's list"""
+    if lst and rng.random() < 0.3:
+        lst = list(lst)
+        lst.append(dict(lst[0]))
+        if rng.random() < 0.5:
+            lst.insert(rng.randrange(len(lst)), dict(lst[-1]))
+        if rng.random() < 0.3:
+            lst.append(lst[0])
+    return lst
+
+
 def gen_auth_args(rng):
-    return {"rp_id": rng.choice(["example.com", "a.b", "bücher.example", "Login.Example.COM", "xn--bcher-kva.example", "XN--BCHER-KVA.example", "xn--80ak6aa92e.com"]), "challenge": rng.choice([None, b"", rng.randbytes(rng.choice([1, 32, 64]))]),
-            "timeout": rng.choice([60000, 0, 5]), "allow": rng.choice([None, []]) if rng.random() < 0.4 else [gen_descriptor(rng) for _ in range(rng.randrange(1, 4))],
+    a = _gen_auth_args(rng)
+    a["allow"] = _with_repeats(rng, a["allow"])
+    return a
+
+
+def _gen_auth_args(rng):
+    return {"rp_id": rng.choice(["example.com", "a.b", "127.0.0.1", "::1", "2001:db8::1", "192.168.1.10", "[::1]", "localhost", "0x7f.0.0.1", "1.2.3", "256.1.1.1", "bücher.example", "Login.Example.COM", "xn--bcher-kva.example", "XN--BCHER-KVA.example", "xn--80ak6aa92e.com"]), "challenge": rng.choice([None, b"", rng.randbytes(rng.choice([1, 32, 64]))]),
+            "timeout": rng.choice([60000, 0, 5, 2 ** 32 - 1, 2 ** 32, 2 ** 32 + 5, 604800000000, 2 ** 63]), "allow": rng.choice([None, []]) if rng.random() < 0.4 else [gen_descriptor(rng) for _ in range(rng.randrange(1, 4))],
             "uv": rng.choice(UV)}
 
 
